@@ -1,6 +1,7 @@
 """Run scripts on the real code in the synctest bubble and validate the traces with TLC."""
 import json
 import os
+import time
 import shutil
 import subprocess
 import sys
@@ -34,22 +35,42 @@ def _run_shard(binary, wdir, idx, scripts):
         if gmp and "GOMAXPROCS" not in os.environ:
             env["GOMAXPROCS"] = gmp
         cmd = [binary, "-test.run", "^TestRun$", "-test.count", "1", "-test.timeout", "0"]
-        tmo = int(os.environ.get("VERIF_SHARD_TIMEOUT", "180"))
-        pr = subprocess.Popen(cmd, env=env, stdout=subprocess.PIPE, stderr=subprocess.STDOUT, text=True)
-        try:
-            outtxt, _ = pr.communicate(timeout=tmo)
-            rc, timed_out = pr.returncode, False
-        except subprocess.TimeoutExpired:
-            # ask the Go runtime for a goroutine dump, then kill
-            import signal
-            pr.send_signal(signal.SIGQUIT)
-            try:
-                outtxt, _ = pr.communicate(timeout=20)
-            except subprocess.TimeoutExpired:
-                pr.kill()
-                outtxt, _ = pr.communicate()
-            rc, timed_out = -9, True
-            outtxt = "harness timeout after %d s; goroutine dump follows\n" % tmo + (outtxt or "")
+        tmo = int(os.environ.get("VERIF_SHARD_TIMEOUT", "90"))
+        # the harness flushes one line per step: "no new line for tmo seconds" means one step never reached
+        # quiescence (a loaded machine slows every step down but keeps the file growing)
+        logp = os.path.join(wdir, "log.%d.%d.txt" % (idx, attempt))
+        with open(logp, "w") as logf:
+            pr = subprocess.Popen(cmd, env=env, stdout=logf, stderr=subprocess.STDOUT, text=True)
+            last_size, last_change, timed_out = -1, time.time(), False
+            while True:
+                try:
+                    pr.wait(timeout=2)
+                    break
+                except subprocess.TimeoutExpired:
+                    pass
+                try:
+                    sz = os.path.getsize(outp)
+                except OSError:
+                    sz = 0
+                if sz != last_size:
+                    last_size, last_change = sz, time.time()
+                elif time.time() - last_change > tmo:
+                    # ask the Go runtime for a goroutine dump, then kill
+                    import signal
+                    pr.send_signal(signal.SIGQUIT)
+                    try:
+                        pr.wait(timeout=20)
+                    except subprocess.TimeoutExpired:
+                        pr.kill()
+                        pr.wait()
+                    timed_out = True
+                    break
+        rc = -9 if timed_out else pr.returncode
+        with open(logp, errors="replace") as lf:
+            outtxt = lf.read()
+        os.remove(logp)
+        if timed_out:
+            outtxt = "harness: no progress for %d s; goroutine dump follows\n" % tmo + outtxt
         got = tracefmt.parse_harness(outp) if os.path.exists(outp) else {}
         progressed = False
         nxt = []
